@@ -88,6 +88,16 @@ RULE = ('hierarchical and hybrid runs, -j 1/2/3, several mutator sets, '
         '--strategy hierarchical on their own output')
 
 
+def conformance(tier):
+    def extra(rep):
+        from .. import conform
+        j1 = [s for s in menu(tier) if '/j1/' in s['name'] + '/' and
+              s['model'][0] != 'adversarial']
+        conform.j1_conformance(rep, j1 if tier == 'thorough'
+                               else j1[rep.seed % 4::4])
+    return extra
+
+
 def main(tier):
     return schedcheck.run(
         PROP, 'model_checking', tier, menu(tier), oracles.judge_c02,
@@ -96,7 +106,8 @@ def main(tier):
          'proposals are re-derived with the same Producer/mutator code the '
          'run used (the oracle is about the loop bookkeeping, not about the '
          'mutators themselves)'),
-        vacuity={'final_states_checked': 10, 'proposals_rechecked': 100})
+        vacuity={'final_states_checked': 10, 'proposals_rechecked': 100},
+        extra=conformance(tier))
 
 
 def replay(rec):
